@@ -391,7 +391,8 @@ type c30Sess struct {
 	env  *c30Env
 	tr   *verifh.T
 	cfg  c30Cfg
-	mode string // up | closed | down
+	mode string // up | closing (Close called, waits for running executions) | closed | down
+	closeDone chan struct{} // closed when the pending Close() returned
 	db   *sqlx.DB
 	m    persistedretry.Manager
 	st   *c30Store
@@ -856,6 +857,16 @@ func (s *c30Sess) do(op []string) []string {
 		}
 		delete(s.running[p], k)
 		delete(s.pool, k)
+		if s.mode == "closing" && len(s.running["in"])+len(s.running["re"]) == 0 {
+			// the last execution ended: the pending Close() returns
+			select {
+			case <-s.closeDone:
+				s.mode, s.closeDone = "closed", nil
+			case <-time.After(c30Timeout):
+				s.fail("stuck-close", "Close_did_not_return_after_the_last_execution_ended")
+				return []string{"err"}
+			}
+		}
 		s.settle()
 		return []string{"ok"}
 	case "adv":
@@ -889,11 +900,28 @@ func (s *c30Sess) do(op []string) []string {
 		if s.mode != "up" {
 			return []string{"none"}
 		}
-		if s.busy() {
+		nrun := len(s.running["in"]) + len(s.running["re"])
+		if len(s.adders) > 0 || s.pollEnd != nil || (nrun > 0 && s.queued["in"]+s.queued["re"] > 0) {
+			// a parked Add / poll pass, or a queued task next to a busy worker: what a worker leaving
+			// Exec then does (select between done and the channel) is a coin toss; not simulated
 			return []string{"busy"}
 		}
 		done := make(chan struct{})
-		go func() { s.m.Close(); close(done) }()
+		m := s.m
+		go func() { m.Close(); close(done) }()
+		if nrun > 0 {
+			// Close waits for the running executions; they stay parked at the harness's gates
+			deadline := time.Now().Add(c30Timeout)
+			for !persistedretry.VerifClosed(m) {
+				if time.Now().After(deadline) {
+					s.fail("stuck-close", "Close_did_not_mark_the_manager_closed")
+					return []string{"err"}
+				}
+				time.Sleep(20 * time.Microsecond)
+			}
+			s.mode, s.closeDone = "closing", done
+			return []string{"ok"}
+		}
 		select {
 		case <-done:
 		case <-time.After(c30Timeout):
@@ -1195,6 +1223,23 @@ func TestVerif_C30(t *testing.T) {
 					c30Run(env, tr, verifh.Case{Cfg: cfg.toks(), Ops: ops})
 					tr.Count("prefixed_exhaustive_cases", 1)
 				}
+			}
+		}
+	}
+	// (a'') Close() while executions are running (it waits for them): every pair of ops afterwards
+	for _, store := range []string{"wb", "tr"} {
+		cfg := c30Cfg{store: store, capIn: 1, capRe: 1, wIn: 2, wRe: 1, ri: 1}
+		alpha := c30Alphabet(2, false)
+		alpha = append(alpha, []string{"op", "close"}, []string{"op", "pollb"})
+		pre := [][]string{{"op", "add", "k0", "0"}, {"op", "add", "k1", "0"}, {"op", "close"}}
+		for _, a := range alpha {
+			for _, b := range alpha {
+				if store == "tr" && (a[1] == "add" || b[1] == "add") {
+					continue
+				}
+				ops := append(append([][]string{}, pre...), a, b)
+				c30Run(env, tr, verifh.Case{Cfg: cfg.toks(), Ops: ops})
+				tr.Count("close_while_running_cases", 1)
 			}
 		}
 	}
